@@ -18,6 +18,69 @@ CHECKS = {
          "tail computed by an independent 128-bit-integer DP. Exploration is the right level: the input space is infinite but "
          "the defect classes (two-valued data, mass at U-0.5, asymmetric tie patterns) are all present in the small scope.",
          "DESIGN.md §4 C01"),
+ "C02": ("exhaustive small-scope enumeration + rapid PBT vs exact integer reference distribution",
+         "Every (N1,N2,T) with N1+N2<=9 (thorough 12) on the whole half-integer grid, plus random distributions up to 50+50 / "
+         "25+25 at grid, off-grid and out-of-range points: PMF, CDF, monotonicity, normalisation and the mirror law against an "
+         "exact count that is itself anchored to literal subset enumeration.", "DESIGN.md §4 C02"),
+ "C03": ("rapid PBT: metamorphic relations (permute, monotone map, swap) + differential vs stated formula and exact reference, over configurations of the two limits",
+         "Generated sample pairs of 0..400 values under generated settings of the two public limits; every law in the statement "
+         "is an executable relation and P is compared with the method the statement prescribes on either side of the switch-over.",
+         "DESIGN.md §4 C03"),
+ "C04": ("rapid PBT: differential vs 400-bit recomputation and an independent Student-t CDF, plus swap / shift / scale metamorphic relations",
+         "Generated samples in the stated domain for the four tests and MeanCI; T and DoF against high-precision recomputation "
+         "with a forward error bound, P against gonum's incomplete beta, error returns, swap and invariance laws, probability "
+         "content of the confidence interval.", "DESIGN.md §4 C04"),
+ "C05": ("rapid PBT: differential vs independent special functions, quadrature of the density, inverse round trip, seeded-sampler KS test",
+         "Generated parameters and probe points over the stated ranges including tails and switch points; accuracy against "
+         "references that share no code with the library, the coherence laws, and the sampler's determinism and distribution.",
+         "DESIGN.md §4 C05"),
+ "C06": ("exhaustive small-scope enumeration + rapid PBT vs exact big-integer / 400-bit probabilities",
+         "All hypergeometric parameter triples up to N=40 (thorough 80) and all binomial N<=60 (thorough 120) on a grid of P, on "
+         "the full k grid, plus random N up to 1000; PMF/CDF/Bounds/moments against exact rational arithmetic.", "DESIGN.md §4 C06"),
+ "C07": ("rapid PBT over generated programs (user-defined piecewise CDFs) with the definition of the generalized inverse as oracle; scripted random source; KS test",
+         "The quantile of generated mixed distributions and of wrapped built-ins is checked against the definition 'smallest x "
+         "with CDF(x)>=y' using the distribution's own CDF, with a call budget for termination; dispatch and the sampler are "
+         "checked bit-for-bit on scripted sources.", "DESIGN.md §4 C07"),
+ "C08": ("rapid PBT differential vs gonum mathext and closed forms in 400-bit arithmetic + exhaustive enumeration of Choose/Lchoose for n<=1000",
+         "Accuracy and identities of BetaInc, GammaInc, GammaIncComp, Beta on generated arguments concentrated at the hard spots; "
+         "all 503505 (n,k) pairs of Choose/Lchoose against exact big integers.", "DESIGN.md §4 C08"),
+ "C09": ("rapid PBT vs 400-bit reference; generated operation histories on a Sample against a multiset model; algebraic identities for vec",
+         "Generated data with offsets up to 1e9 spreads, integer weights with zeros, permutations and Sort/Copy/permute/query "
+         "histories; every statistic against exact arithmetic with condition-number-scaled tolerances.", "DESIGN.md §4 C09"),
+ "C10": ("rapid PBT vs exact R8 quantile in 400-bit arithmetic; monotonicity / bounds / order-independence laws; weighted cumulative-weight oracle",
+         "Generated samples with repeats and q including the exact break points; the value (continuous in q) is compared, with a "
+         "tolerance that includes both neighbouring gaps at a break point.", "DESIGN.md §4 C10"),
+ "C11": ("exhaustive grid enumeration + rapid PBT with validity predicates from exact binomial masses; independent normal-approximation oracle for n>30",
+         "All n<=30 on a grid of q and 200+ confidence levels including every cumulative mass of the greedy accumulation and its "
+         "ulp neighbours; the interval is judged by the predicates of the statement, not by one expected answer.", "DESIGN.md §4 C11"),
+ "C12": ("rapid PBT over KDE configurations: differential vs independently summed (folded) kernel formula, quadrature of the density vs CDF, bounds and bandwidth rules",
+         "Generated samples, weights, three kernels, bandwidths and the four boundary configurations; density and CDF against a "
+         "directly summed image series, integral consistency, mass 1, Bounds and bandwidth formulas.", "DESIGN.md §4 C12"),
+ "C13": ("rapid model-based testing of Add/Combine histories over several accumulators vs 400-bit batch statistics; every-split law",
+         "Generated histories of Add and Combine on up to 6 accumulators (empty sides, nested merges) with a multiset model, "
+         "checked after every step; plus every split point of generated streams.", "DESIGN.md §4 C13"),
+ "C14": ("rapid model-based testing of Add sequences vs the histogram's own reported edges; rank oracle for HistogramQuantile; native fuzzing",
+         "Generated histogram shapes and value sequences concentrated on edges and just below the first edge; conservation, bin "
+         "placement by the reported edges, BinToValue interpolation and the quantile rank walk.", "DESIGN.md §4 C14"),
+ "C15": ("rapid PBT: normal-equation residual and perturbation optimality, polynomial reproduction, LOESS locality metamorphic relation and independent QR fit",
+         "Generated well-conditioned designs (condition number measured per case); the fit is judged by the defining optimality "
+         "conditions and LOESS by locality, reproduction and an independent weighted fit.", "DESIGN.md §4 C15"),
+ "C16": ("rapid PBT: differential vs affine / log-affine map in 400-bit arithmetic, round trips, monotonicity, clamp and QQ composition laws over configurations",
+         "Generated domains over 24 orders of magnitude in both orders and signs, points inside and far outside, Clamp on/off, all "
+         "four QQ pairings.", "DESIGN.md §4 C16"),
+ "C17": ("rapid PBT with definitional tick oracle + exhaustive enumeration of FindLevel over all monotone count functions, limits and guesses",
+         "Generated Linear and Log scales and TickOptions; ticks against integer multiples of the documented spacing, minimal level "
+         "by linear scan, Nice laws; FindLevel against brute force on the complete small space.", "DESIGN.md §4 C17"),
+ "C18": ("exhaustive enumeration of all digraphs on <=4 nodes (thorough 5) + rapid PBT on multigraphs and large structured graphs + model-based NodeMarks histories + native fuzzing",
+         "Traversals, Euler tour, SCC, SimplifyMulti, subgraphs, MakeBiGraph, Equal and Dot output against definitional "
+         "recomputation (explicit-stack DFS, BFS reachability, multiset comparison, a quote-aware Dot parser).", "DESIGN.md §4 C18"),
+ "C19": ("exhaustive enumeration of all digraphs on <=4 nodes (thorough 5) x every root + rapid PBT on reducible/irreducible graphs with unreachable parts; step budget for termination; native fuzzing",
+         "IDom, Dom and DomFrontier against dominance decided by deleting each node and re-running reachability; panics and a "
+         "call-count budget on an instrumented graph decide 'never panics / terminates'.", "DESIGN.md §4 C19"),
+ "C20": ("rapid PBT over a registry of the exported API: argument snapshots, repeat-after-unrelated-calls determinism, and 16 goroutines on shared inputs under the race detector",
+         "Every registered call is checked for untouched arguments and bit-identical repeated results; the binary is built with "
+         "-race and the registry is run concurrently on shared read-only inputs. Schedules are sampled, not enumerated.",
+         "DESIGN.md §4 C20"),
 }
 
 def main():
